@@ -55,6 +55,9 @@ def body_octets(spec):
     import random as _r
     r = _r.Random(spec['seed'])
     k, n = spec['body'], spec['size']
+    if spec.get('bom') and k in ('text', 'utf8'):
+        # a text that opens with U+FEFF (files written "UTF-8 with signature"): three content octets like any other
+        return b'\xef\xbb\xbf' + body_octets(dict(spec, bom=False))
     if k == 'empty' or n == 0:
         return b''
     if k == 'text':
